@@ -57,6 +57,9 @@ def shards(tier, seed):
     out.append(("factor_struct", dict(kind="factor_struct", count=150 if q else 2500)))
     out.append(("gcdlcm", dict(kind="gcdlcm", count=1500 if q else 40000)))
     out.append(("code_constants", dict(kind="consts")))
+    out.append(("pyopt_isprime_adv", dict(kind="isprime_adv", nrand=300 if q else 5000, _pyopt=True)))
+    out.append(("pyopt_factor_struct", dict(kind="factor_struct", count=60 if q else 600, _pyopt=True)))
+    out.append(("pyopt_nextprime_gap", dict(kind="nextprime_gap", ngaps=8, _pyopt=True)))
     out.append(("next_prime_seams", dict(kind="seams", gaps=1 if q else 4, cmax=600 if q else 8192)))
     return out
 
